@@ -33,7 +33,7 @@ VALUES = {"quick": 20, "thorough": 40}
 
 
 def shards(tier, seed):
-    return campaign.tree_shards(TREES[tier], 3 if tier == "quick" else 20)
+    return campaign.tree_shards(TREES[tier], 3 if tier == "quick" else 20, capture=True)
 
 
 def run(shard, rec, tier, seed):
@@ -48,7 +48,7 @@ def run(shard, rec, tier, seed):
                 continue
             rec.count("trees-staged")
             campaign.record_features(rec, feats)
-            run_tree(rec, tier, seed, ti, spec, t)
+            run_tree(campaign.CaptureRec(rec, ti), tier, seed, ti, spec, t)
 
 
 def run_tree(rec, tier, seed, ti, spec, t):
